@@ -177,3 +177,40 @@ Proof.
   exists tp. split; [done|]. cbn [step]. unfold query_entry, query_bool. rewrite !(resolve_same_cwd env m m' l Hc), Hl, Hlk.
   cbn. by destruct (match m_ents m !! tp with Some x => e_dir x | None => false end).
 Qed.
+
+(* ---- chmod of a single entry (no recursion, no follow) ---- *)
+Lemma walk_single_nofollow m o pre p r : WF m → o_follow o = false → o_max o = Some 0 → m_ents m !! p = Some r →
+  walk (m_ents m) o pre p = inl (Done (if selected o 0 r then [EvItem (IOk r)] else [])).
+Proof.
+  intros HW Hnf Hmax Hr. destruct (walk_nofollow (m_ents m) o pre p r (wf_key_ok m HW) Hnf Hr) as (h & evs & Hsw & ->).
+  do 2 f_equal. unfold sw_walk in Hsw. rewrite Hnf in Hsw. destruct h as [|h]; [done|].
+  rewrite sw_S in Hsw. cbn zeta in Hsw. rewrite (loops_nofollow o [] r Hnf), Hmax in Hsw.
+  cbn [length lt_max] in Hsw. rewrite andb_false_r in Hsw. by injection Hsw as <-.
+Qed.
+
+(* chmod(path, ..) without recursion and without follow is exactly one application of the per-entry rule to the entry
+   stored under the path *)
+Theorem chmod_single env m s o p r : WF m → ch_follow o = false → ch_recursive o = false →
+  resolve env m s = inl p → m_ents m !! p = Some r →
+  chmod_op env m s o = Done (let '(m', e) := chmod_item_apply o m r in (m', match e with None => inl tt | Some e => inr e end)).
+Proof.
+  intros HW Hnf Hnr Hres Hr. unfold chmod_op. rewrite Hres, Hnr. set (wo := w_dirs_first _).
+  rewrite (walk_single_nofollow m wo (chmod_pre_check o) p r HW Hnf eq_refl Hr).
+  change (selected wo 0 r) with true. cbn [chmod_events]. by destruct (chmod_item_apply o m r) as [m' [e|]].
+Qed.
+
+(* ... which, when the grammar yields a value v for the entry's kind, v is not 0 (KF-C11-octal-zero) and differs from the
+   current mode, stores exactly v (with the kind's type bits) under the path and changes nothing else; a link is left alone *)
+Theorem chmod_single_value env m s o p r v : WF m → ch_follow o = false → ch_recursive o = false →
+  resolve env m s = inl p → m_ents m !! p = Some r → e_link r = false →
+  (if e_dir r then mode_for r (ch_dirs o) (ch_sym o) else if e_file r then mode_for r (ch_files o) (ch_sym o) else inl 0%N) = inl v →
+  v ≠ e_mode r → v ≠ 0%N →
+  ∃ m', chmod_op env m s o = Done (m', inl tt) ∧ m_ents m' !! p = Some (set_mode r (Some v)) ∧
+        (∀ q, q ≠ p → m_ents m' !! q = m_ents m !! q) ∧ m_data m' = m_data m ∧ m_cwd m' = m_cwd m.
+Proof.
+  intros HW Hnf Hnr Hres Hr Hl Hv Hne H0. rewrite (chmod_single env m s o p r HW Hnf Hnr Hres Hr).
+  unfold chmod_item_apply, chmod_target. rewrite Hnf. cbn [andb]. rewrite Hv, Hl. cbn [negb andb].
+  rewrite (proj2 (N.eqb_neq v (e_mode r)) Hne), (proj2 (N.eqb_neq v 0) H0). cbn [negb andb].
+  rewrite (wf_key m HW _ _ Hr). unfold set_mode_at. rewrite Hr. eexists. split; [done|]. cbn [upd_ents m_ents m_data m_cwd].
+  split; [by rewrite lookup_insert|]. split; [|done]. intros q Hq. by rewrite lookup_insert_ne.
+Qed.
